@@ -301,10 +301,26 @@ def checkSizes (s : RShape) : Except Err Unit :=
   else if !(match s.angle with | some a => angleOk a | none => true) then .error .valueError
   else .ok ()
 
+/-- a full turn in the unit of a longitude. -/
+def turn : U → ℚ
+  | .deg => 360 | .hour => 24 | .rad => 360 / radDeg
+  | _ => 0
+
+/-- astropy's `Longitude` (what `SkyCoord` stores): the value is wrapped into `[0, 360°)`,
+i.e. `v - turn · ⌊v / turn⌋` in the unit of the angle (`360deg -> 0deg`, `-1deg -> 359deg`). -/
+def wrapLon (a : Q) : Q :=
+  if turn a.u = 0 then a else { a with v := a.v - turn a.u * ⌊a.v / turn a.u⌋ }
+
+/-- the coordinates of the region object: pixel coordinates are the bare values, sky
+longitudes are wrapped. -/
+def regionPts (coordsys : String) (pts : List (Q × Q)) : List (Q × Q) :=
+  if isImage coordsys then pts.map (fun p => (dropUnit p.1, dropUnit p.2))
+  else pts.map (fun p => (wrapLon p.1, p.2))
+
 /-- the region object once the checks have passed. -/
 def buildRegion (s : RShape) : RReg :=
   { kind := s.kind, frame := s.coordsys,
-    pts := if isImage s.coordsys then s.pts.map (fun p => (dropUnit p.1, dropUnit p.2)) else s.pts,
+    pts := regionPts s.coordsys s.pts,
     sizes := if isImage s.coordsys then s.sizes.map dropUnit else s.sizes,
     angle := if s.kind = .ellipse ∨ s.kind = .rectangle then
                some (s.angle.getD ⟨0, .deg, false⟩)              -- default `angle=0 deg`
